@@ -50,7 +50,20 @@ pub fn run(a: &Args) {
         let client = Rc::new(RefCell::new(FailSpotName::testing_client()));
         let (c2, un2) = (client.clone(), unreadable.clone());
         let hook: HookFn = Box::new(move |p| { if let Point::ThreadEnumerated(tid) = p { c2.borrow_mut().set_enabled(FailSpotName::ThreadName, un2.contains(&tid)); } });
-        let mut writer = MinidumpWriter::new(target.pid, target.pid);
+        // in a third of the cases a crash context is supplied for some thread, and the thread-id field inside the context is
+        // not the id the writer was given (a handler that ran in another pid namespace): the names must still be paired with
+        // the ids of the listed threads
+        let with_crash = case % 3 == 0 && case > 0;
+        let blamed = if with_crash { *rng.pick(&all) } else { target.pid };
+        let mut writer = MinidumpWriter::new(target.pid, blamed);
+        if with_crash {
+            let mut cc = crate::ctx::gen_crash_context(&mut rng, blamed);
+            cc.inner.tid = match rng.below(3) { 0 => 1, 1 => *rng.pick(&all), _ => blamed.wrapping_add(1000) };
+            let sp = if blamed == target.pid { target.fact_hex("anon0").max(0x10000) } else { target.tids.iter().position(|t| *t == blamed).map(|i| target.fact_hex(&format!("t{i}.sp"))).unwrap_or(0x10000) };
+            cc.inner.context.uc_mcontext.gregs[libc::REG_RSP as usize] = sp as i64;
+            writer.set_crash_context(cc);
+            out.count("shape.crash_context_with_foreign_thread_id");
+        }
         let mut dest = std::io::Cursor::new(Vec::new());
         let (res, world, _ev) = with_hooks(target.pid, target.pid, true, Some(hook), || quiet_catch(std::panic::AssertUnwindSafe(|| writer.dump(&mut dest).map_err(|e| format!("{e:?}")))));
         client.borrow_mut().set_enabled(FailSpotName::ThreadName, false);
@@ -73,7 +86,16 @@ pub fn run(a: &Args) {
             Ok(Ok(img)) => {
                 match md::Dump::parse(&img).and_then(|d| { let l = d.streams.get(&md::THREAD_NAMES).cloned().ok_or("no thread-names stream".to_string())?; Ok((d, l)) }) {
                     Err(e) => { resl.0 = format!("!decode {e}"); }
-                    Ok((_d, l)) => {
+                    Ok((d, l)) => {
+                        // the two streams agree on the ids: every named id is the id of exactly one listed thread
+                        if let (Ok(ths), Ok(nms)) = (d.threads(&img), d.thread_names(&img)) {
+                            let ids: Vec<u32> = ths.iter().map(|t| t.tid).collect();
+                            let stray: Vec<u32> = nms.iter().map(|n| n.tid).filter(|t| ids.iter().filter(|x| *x == t).count() != 1).collect();
+                            let mut l2 = Line::new("const"); l2.u(case as u64).u(1);
+                            let mut r2 = Line::bare();
+                            if stray.is_empty() { r2.u(case as u64).u(1); } else { r2.0 = format!("!names are recorded for ids that are not the id of exactly one listed thread: {stray:?} (listed {ids:?})"); }
+                            out.case(l2.s(), r2.s(), !nms.is_empty());
+                        }
                         // stream + strings, rvas made relative to the stream start
                         let start = l.rva as usize;
                         let n = md::u32_at(&img, start).unwrap_or(0) as usize;
